@@ -520,7 +520,7 @@ pub fn c07(ctx: &mut Ctx) {
                     ("random-tail", random_poly(&mut rng, l))
                 }
             };
-            for mode in ["truncated", "untruncated", "fitted"] {
+            for mode in ["truncated", "untruncated", "fitted", "fitted-but-last", "fitted-but-first"] {
                 let untruncated = mode == "untruncated";
                 let full_len = (coeffs.len() + (1 << shape.sum_steps()) - 1) >> shape.sum_steps();
                 let last_len = if untruncated { Some(full_len.max((1 << shape.log_last_bound) + 1)) } else { None };
@@ -538,14 +538,22 @@ pub fn c07(ctx: &mut Ctx) {
                 }
                 let w = models::subgroup_generator(log_size);
                 let ys: Vec<Felt> = pts.iter().map(|q| w.pow(models::bitrev(*q, log_size) as u128)).collect();
-                if mode == "fitted" {
-                    // adaptive last layer: interpolate the folded function at the first 2^bound
-                    // final query points (the most a polynomial below the bound can be made to fit)
-                    let k = (1usize << shape.log_last_bound).min(ys.len());
-                    if k > 32 {
+                if mode.starts_with("fitted") {
+                    // adaptive last layer: interpolate the folded function at as many final query
+                    // points as a polynomial below the bound can be made to fit (the first ones; or
+                    // all but the last / all but the first when the bound allows it)
+                    let cap = 1usize << shape.log_last_bound;
+                    let sel: Vec<Felt> = match mode {
+                        "fitted" => ys.iter().take(cap).cloned().collect(),
+                        "fitted-but-last" if ys.len() >= 2 && cap >= ys.len() - 1 => ys[..ys.len() - 1].to_vec(),
+                        "fitted-but-first" if ys.len() >= 2 && cap >= ys.len() - 1 => ys[1..].to_vec(),
+                        _ => continue,
+                    };
+                    let k = sel.len();
+                    if k > 32 || k == 0 {
                         continue;
                     }
-                    let xs = &ys[..k];
+                    let xs = &sel[..];
                     let vals: Vec<Felt> = xs.iter().map(|y| models::eval_poly(&full, *y)).collect();
                     let mut fitted = models::lagrange_interpolate(xs, &vals);
                     fitted.resize(1usize << shape.log_last_bound, Felt::ZERO);
@@ -565,8 +573,8 @@ pub fn c07(ctx: &mut Ctx) {
                     ctx.stats.probe("high-degree-undetectable-at-queried-points");
                     continue;
                 }
-                if mode == "fitted" {
-                    ctx.stats.probe("high-degree-fitted-to-first-queries-but-detectable");
+                if mode.starts_with("fitted") {
+                    ctx.stats.probe(&format!("high-degree-{mode}-but-detectable"));
                 }
                 if o.is_accept() {
                     let class = format!("C07|fault-accepted|{}", kind.split(':').next().unwrap());
